@@ -90,12 +90,10 @@ class Mesh2DVoronoi(Abstract2DMeshTriangulation):
 
         else:
             interpolated_array = griddata(
-                points=self.voronoi.points, values=values, xi=interpolation_grid
+                points=self.array, values=values, xi=interpolation_grid
             )
 
-            interpolated_array = np.flipud(
-                np.fliplr(interpolated_array.reshape(shape_native).T)
-            )
+            interpolated_array = interpolated_array.reshape(shape_native)
 
         return Array2D.no_mask(
             values=interpolated_array, pixel_scales=interpolation_grid.pixel_scales
